@@ -861,7 +861,15 @@ impl ImageHandler for SixelImageHandler {
         let height = (img.height() / 6) * 6;
         // sixel color chanel has a range [0,100] colors, we need to reduce it before
         // quantization, it will produce smaller or/and better palette for this color depth
+        // composite transparent pixels over the background first, the channel reduction below
+        // must see the colors that are actually going to be shown
+        let bg = self.bg.unwrap_or_else(|| RGBA::new(0, 0, 0, 255));
         let dimg = Image::from(img.view(..height, ..).map(|_, color| {
+            let color = if color.to_rgba()[3] < 255 {
+                bg.blend_over(*color)
+            } else {
+                *color
+            };
             let [red, green, blue, alpha] = color.to_rgba();
             let red = ((red as f32 / 2.55).round() * 2.55) as u8;
             let green = ((green as f32 / 2.55).round() * 2.55) as u8;
